@@ -224,7 +224,19 @@ def _run(case, modname, devs):
     explicit = case['port_name']
     flags = case.get('flags', {})
     results = []
+    env_by_rep = [dict(env), dict(env)]
+    if case.get('env_change'):
+        # between the two calls the environment changes (values replaced, one variable removed): nothing may be remembered
+        env2 = {k: v + '-2' for k, v in env.items()}
+        if 'MIDO_DEFAULT_OUTPUT' in env2:
+            del env2['MIDO_DEFAULT_OUTPUT']
+        env2.setdefault('MIDO_DEFAULT_INPUT', 'late-in')
+        env_by_rep[1] = env2
     for rep in range(2):
+        if rep == 1 and case.get('env_change'):
+            for k in ENVV[1:]:
+                os.environ.pop(k, None)
+            os.environ.update(env_by_rep[1])
         del_from = len(EVENTS)
         if fn.startswith('open'):
             kw = dict(call_kw)
@@ -238,7 +250,8 @@ def _run(case, modname, devs):
         out.append(fail('import-count', f'module imported {len(all_imports)} times', **facts))
     for rep, (res, evs) in enumerate(results):
         evs = [e for e in evs if e[0] != 'import']
-        envget = (lambda k: env.get(k)) if use_env else (lambda k: None)
+        env = env_by_rep[rep]
+        envget = (lambda k, env=env: env.get(k)) if use_env else (lambda k: None)
         if fn.startswith('get'):
             if case['has_devices']:
                 if len(evs) != 1 or evs[0][0] != 'get_devices':
@@ -342,6 +355,10 @@ def grid_shard(rec, shard):
     for i, case in enumerate(grid()):
         if i % n == k:
             rec.check(case, distinct=True, sample=(i % 4001 == 0))
+            if case['fn'].startswith('open') and case['port_name'] is None and i % 3 == 0:
+                c = dict(case)
+                c['env_change'] = True
+                rec.check(c, distinct=True, sample=False, classes=('env-change',))
             if case['entry'] != 'method' and i % 5 == 0:
                 # the same selection made after an earlier selection of the same module with another api
                 for pre in ([{'suffix': 'OLD', 'use': True}], [{'suffix': 'OLD', 'use': False}],
